@@ -628,7 +628,7 @@ package kcp
 //@ pred gate(b BlockCrypt, d []byte) = b == nil || (typeis(b, ptr_aeadCrypt) ? aeadok(d) : le32(d, 0 - 4) == crcof(d))
 //
 // Immutable facts and the monitor invariant of a session.
-//@ pred (s *UDPSession) imm() = s.kcp != nil && s.chPostProcessing != nil && 0 <= s.headerSize && s.headerSize <= 36
+//@ pred (s *UDPSession) imm() = s.kcp != nil && s.conn != nil && s.remote != nil && s.chPostProcessing != nil && 0 <= s.headerSize && s.headerSize <= 36
 //@      && (s.fecEncoder != nil ==> s.headerSize == s.fecEncoder.payloadOffset + 2)
 //@      && (typeis(s.block, ptr_aeadCrypt) ==> unboxptr(s.block, aeadCrypt) != nil && unboxptr(s.block, aeadCrypt).aead != nil)
 //@      && s.ov() >= 0
@@ -677,11 +677,25 @@ package kcp
 //@   ensures result != nil && fresh(result) && result.imm() && result.kcp.conv == conv && result.remote == remote
 //@   ensures result.block == block && result.l == l
 //
+//@ func Listener.closeSession inline
+//@ func Listener.unregisterSession inline
 //@ func UDPSession.Close counted trusted
 //@   requires s.imm()
 //@   modifies everything
-//@   ensures s.l != nil ==> !in(s.l.sessions, addrstr(s.remote))
+//@   ensures @C11 [once-fired] oncedone(s.dieOnce)
+//@   ensures @C11 [registrations-only-shrink] s.l != nil ==> forall k string :: in(s.l.sessions, k) ==> old(in(s.l.sessions, k)) && s.l.sessions[k] == old(s.l.sessions[k])
+//@   ensures @C11 [others-stay-registered] s.l != nil ==> forall k string :: old(in(s.l.sessions, k)) && old(s.l.sessions[k]) != s ==> in(s.l.sessions, k)
+//@   ensures @C11 [closing-call-unregisters-itself] !old(oncedone(s.dieOnce)) && s.l != nil ==> forall k string :: in(s.l.sessions, k) ==> s.l.sessions[k] != s
+//@   section Listener.sessionLock ensures @C11 [close-unregisters-only-itself] forall k string :: old(in(s.l.sessions, k)) && old(s.l.sessions[k]) != s ==> in(s.l.sessions, k) && s.l.sessions[k] == old(s.l.sessions[k])
 //@   ensures forall o int :: o != ref(old(s.kcp.buffer)) ==> bytesobj(o) == old(bytesobj(o))
+//
+// The conversation id a datagram carries, as a function of its (decrypted) bytes - taken from the
+// wire format, not from packetInput's locals: FEC data packets (0xf1, long enough to hold a KCP
+// header) and OOB packets (0xf3) carry it after the 8-byte FEC header, raw KCP packets at offset 0,
+// parity packets (0xf2) and short FEC data packets carry none.
+//@ spec pktKind(d []byte) int = le16(d, 4)
+//@ spec pktHasConv(d []byte) bool = (pktKind(d) == 241 && len(d) >= 32) || pktKind(d) == 243 || (pktKind(d) != 241 && pktKind(d) != 242 && pktKind(d) != 243 && len(d) >= 24)
+//@ spec pktConv(d []byte) int = (pktKind(d) == 241 || pktKind(d) == 243) ? le32(d, 8) : le32(d, 0)
 //
 // Listener.packetInput is verified in sequential mode for its own effects (C06, C11): the
 // assertions below are evaluated in its frame immediately before the named calls.
@@ -694,8 +708,9 @@ package kcp
 //@   callsite newUDPSession requires @C06 [integrity-gate-before-create] gate(l.block, data)
 //@   callsite UDPSession.kcpInput requires @C11 [only-the-session-of-this-address] (old(in(l.sessions, addrstr(addr))) && s == old(l.sessions[addrstr(addr)])) || fresh(s)
 //@   callsite UDPSession.kcpInput requires @C11 [conversation-id-matches] !hasConv || conv == s.kcp.conv
+//@   callsite UDPSession.kcpInput requires @C11 @C19 [packet-conversation-matches-session] pktHasConv(data) ==> pktConv(data) == s.kcp.conv
 //@   callsite UDPSession.Close requires @C11 [close-only-on-new-conversation-start] exist && hasConv && conv != s.kcp.conv && sn == 0 && s == old(l.sessions[addrstr(addr)])
-//@   callsite newUDPSession requires @C11 [create-only-when-unmapped-and-identified] hasConv && !in(l.sessions, addrstr(addr))
+//@   callsite newUDPSession requires @C11 [create-only-when-unmapped-or-dead-and-identified] pktHasConv(data) && (!in(l.sessions, addrstr(addr)) || oncedone(l.sessions[addrstr(addr)].dieOnce))
 //@   ensures @C06 [rejected-packet-has-no-effect] (forall o int :: callsat(UDPSession.kcpInput, o) == old(callsat(UDPSession.kcpInput, o)))
 //@        && (forall o int :: callsat(UDPSession.Close, o) == old(callsat(UDPSession.Close, o))) && calls(newUDPSession) == old(calls(newUDPSession))
 //@        ==> sameheap(KCP, RingBuffer, segmentHeap, fecDecoder, shardHeap, UDPSession, Listener, allelems, allmaps)
